@@ -40,7 +40,7 @@ type tsArg struct {
 func init() {
 	drivers["gates"] = func(a *Args) {
 		d := loadDomains(a.In)
-		cc := Conc{a.Rand()}
+		cc := Conc{r: a.Rand()}
 		w := &evWorld{kr: newKeyring([]string{"ES256"}), sigs: map[string]sigID{}, enc: map[string][]byte{}, claims: map[string]psatoken.IClaims{}}
 		t := NewTracer(a.Out)
 		b := 0
